@@ -529,9 +529,11 @@ def c09(ck):
                "functions, pr-str) run with real goroutines; hooks record linearization-point events under the lock; "
                "TraceAtom.tla validates every recorded scenario; hangs judged structurally; a -race build runs the same")
     q = ck.quick
+    # 0. the compare-and-set design, for any number of threads: TLAPS proof of AtomCas (AtomImpl refines it, below)
+    ck.extra["tlaps_obligations_proved_AtomCasProof"] = ck.tlapm("AtomCasProof")
     # 1. design checking
     for sc in (1, 2, 3, 4, 5):
-        props = ["CommitSeesCurrent", "FailedSwapKeepsCell"] + ([] if sc == 4 else ["Termination"])
+        props = ["CommitSeesCurrent", "FailedSwapKeepsCell", "RefinesCas1", "RefinesCas2"] + ([] if sc == 4 else ["Termination"])
         c = cfg(constants={"DesignC": '"cas"', "ScenarioId": sc}, invariants=["TypeOK"], props=props,
                 extra="CONSTRAINT VerBound").replace("CHECK_DEADLOCK FALSE", "CHECK_DEADLOCK TRUE")
         r = ck.tlc("MCAtom", c, timeout=900, deadlock=True, want_cases=False)
